@@ -44,7 +44,12 @@ Judge(rec) ==
                      \cup (IF (o.pair.compile = "ok") # compiles THEN {"paircompile"} ELSE {})
                      \cup (IF o.pair.compile = "ok" /\ compiles /\ (o.pair.invoke = "value") # accepts THEN {"pairaccept"} ELSE {})
                      \* ... and the same after the callable has been used with the compile-time sample itself
-                     \cup (IF o.pair.compile = "ok" /\ compiles /\ o.pair.warm \in {"value", "error"} /\ (o.pair.warm = "value") # accepts THEN {"pairwarm"} ELSE {}))
+                     \cup (IF o.pair.compile = "ok" /\ compiles /\ o.pair.warm \in {"value", "error"} /\ (o.pair.warm = "value") # accepts THEN {"pairwarm"} ELSE {})
+                     \* ... and a later compilation against b itself accepts b exactly when b is an environment at all
+                     \cup (LET tb == TypeOfGo(rec.b) IN
+                           IF "second" \in DOMAIN o.pair /\ o.pair.second # "none" /\ ~(tb.ok /\ tb.t.k = "ood") /\ ~(vb.ok /\ vb.v.k = "ood")
+                              /\ (o.pair.second = "value") # (tb.ok /\ tb.t.k = "obj" /\ vb.ok /\ vb.v.k = "obj")
+                           THEN {"pairsecond"} ELSE {}))
              ELSE {})
 
 Init == st \in {[c |-> c, l |-> ChunkLo(c, N)] : c \in 1..NChunks}
